@@ -35,7 +35,11 @@ R = Rules(
         "(attribute or context variable), and an error reported while nothing is sent names no remote (C02.m); the pipe's own statements behind "
         "add_exception / add_response (live and ended arm; escape analysis, a logging call with a keyword logging does not take counts as "
         "TypeError; registered callbacks are application code) raise nothing into the reporter, or dispatch_error still fails every other "
-        "request of the remote when one add_exception raises (C02.n).  Completion under "
+        "request of the remote when one add_exception raises (C02.n); the task Context.request spawns to bring a request to its interface is spawned on the loop and "
+        "nobody in the package holds it in a way that lets a cancel() reach it (all uses of the spawning call's value and of every attribute it is kept in "
+        "are classified; CancelledError passes the coroutine's `except Exception`, so a cancelled carrier leaves the response future pending) (C02.o).  "
+        "C02.d runs a token source that takes arguments on the calls request() really makes and on empty / foreign / same-remote request tables: every draw "
+        "advances the counter and two successive draws differ, whatever the source looks at.  Completion under "
         "arbitrary loss/duplication/reordering schedules is not decided."
     ),
     rule_text="small-scope evaluation of the token manager's methods against behavioural reference outcomes; ownership over the whole package; exactly-once path rules; normal forms",
@@ -318,7 +322,7 @@ def _request_runs(ctx):
             for gone in (False, True):
                 def run(script, mc=mc, gone=gone):
                     r = _RQRun()
-                    r.mc, r.gone, r.tokens, r.cbs = mc, gone, [], []
+                    r.mc, r.gone, r.tokens, r.cbs, r.token_calls = mc, gone, [], [], []
                     Rm = kit.Obj("remote", True, attrs={"is_multicast": mc})
                     msg = kit.Obj("request.request", True, attrs={"remote": Rm})
                     rq = kit.Obj("request", True, attrs={"request": msg})
@@ -338,6 +342,9 @@ def _request_runs(ctx):
                         if callee.parent == me and callee.attr == "next_token":
                             t = it.fresh("token", known=True)
                             r.tokens.append(t)
+                            # how the token source is called, and the table it sees at that moment (C02.d runs
+                            # next_token on exactly these calls when it takes arguments)
+                            r.token_calls.append((list(args), dict(kwargs), [(k_, v_) for k_, v_ in D.pairs], len(it.choices)))
                             return t
                         return NotImplemented
                     it = kit.Interp(prog, script, opaque_call=opaque)
@@ -477,6 +484,51 @@ _COUNTERS = [0, 1, 2, 41, 254, 255, 256, 257, 511, 0xFFFF, 0x10000, 0x10001, 0x1
              2 ** 63 - 1, 2 ** 63, 2 ** 64 - 3, 2 ** 64 - 2, 2 ** 64 - 1]
 
 
+def _token_source_worlds(ctx, prog, fi):
+    """(description, args, kwargs, request table) for every way next_token is called.  A source without parameters has
+    one world.  A source WITH parameters (somebody made the token depend on the destination, the table, a width, ...)
+    is run on the calls request() really makes -- arguments and keywords as the request() worlds record them -- and
+    on request tables that are empty, hold only requests of other remotes / without remote, hold an older request of
+    each individual handed in (the remote), and the table request() had at the time of the call: whatever the source
+    looks at, every draw must still advance the counter and render it injectively."""
+    ps = params(fi)
+    a = fi.node.args
+    ctx.need(a.vararg is None and a.kwarg is None, "next_token: *args / **kwargs")
+    if not ps:
+        T0, R2 = kit.Obj("older-token", True), kit.Obj("other-remote", True)
+        held = [((T0, R2), kit.Obj("older-request", True)), ((T0, None), kit.Obj("older-multicast-request", True))]
+        return [("world: no request outstanding; ", [], {}, []), ("world: a unicast and a multicast request outstanding; ", [], {}, held)]
+    # every caller must be inside the worlds: request() is the only one the worlds drive
+    for other in prog.funcs.values():
+        if isinstance(other.node, ast.Lambda) or other.short == TM + "request":
+            continue
+        for c in walk_no_nested(other.node):
+            if isinstance(c, ast.Attribute) and c.attr == "next_token":
+                raise AnalysisError("next_token takes arguments and is used by %s: outside the rule's worlds" % other.short)
+    _rfi, rruns = _request_runs(ctx)
+    out = []
+    for r in rruns:
+        for args, kwargs, snap, undecided in r.token_calls:
+            # what request() branched on AFTER the call (the rendering of an opaque token in a log line) is immaterial
+            ctx.need(not undecided, "request(): the evaluated world does not determine how next_token is called")
+            inds = []
+            for v in list(args) + list(kwargs.values()):
+                ctx.need(v is None or isinstance(v, kit.NATIVE) or (isinstance(v, kit.Obj) and v.known), "next_token is called with %r: outside the rule's worlds" % (v,))
+                if isinstance(v, kit.Obj) and v not in inds:
+                    inds.append(v)
+            T0, R2 = kit.Obj("older-token", True), kit.Obj("other-remote", True)
+            far = [((T0, R2), kit.Obj("older-request-of-another-remote", True)), ((T0, None), kit.Obj("older-multicast-request", True))]
+            tables = [("no request outstanding", []), ("requests outstanding to another remote and without remote only", far)]
+            for x in inds:
+                tables.append(("an older request outstanding under (older token, %s)" % x.name, far[:1] + [((T0, x), kit.Obj("older-request", True))]))
+            tables.append(("the table request() has when it draws the token", snap))
+            shown = ", ".join([_show_key((v,))[1:-1] for v in args] + ["%s=%s" % (k_, _show_key((v,))[1:-1]) for k_, v in kwargs.items()])
+            for tdesc, table in tables:
+                out.append(("world: %s, next_token(%s), %s; " % (_world_rq(r).replace("world: ", ""), shown, tdesc), args, kwargs, table))
+    ctx.need(bool(out), "next_token takes arguments but request() does not call it in the evaluated worlds")
+    return out
+
+
 @R.clause("C02.d", "tokens: 64-bit counter advanced only by next_token, injective rendering, assigned before the key is formed")
 def d(ctx):
     w = field_writers(ctx.prog, "_token", modules={"aiocoap.tokenmanager"})
@@ -486,26 +538,35 @@ def d(ctx):
             ctx.ob("the token counter is written only by __init__ and next_token", fn in (TM + "__init__", TM + "next_token"), fi, node)
     prog = _world_prog(ctx)
     fi = _anchor(ctx, prog, TM + "next_token")
-    ctx.need(not params(fi), "next_token takes no arguments")
     qn = _tm_qn(ctx)
     V = _Verdicts(ctx, fi)
     rets = [n for n in walk_no_nested(fi.node) if isinstance(n, ast.Return)]
     ups = [n for _k, n in stores_to(fi.node, "self._token", nested=False)]
     seen = {}
-    for k in _COUNTERS:
-        me = kit.Obj("self", True, cls=qn, attrs={"_token": k})
-        it = kit.Interp(prog)
-        kind, tok = it.run_method(fi, me, [])
-        ctx.need(kind == "return" and not it.choices, "next_token: the evaluated world is not deterministic")
-        after = me.attrs.get("_token")
-        V.check("the counter advances by exactly one modulo 2**64 (2**64 distinct tokens before a repeat)", after == (k + 1) % 2 ** 64 and not isinstance(after, bool), ups[0] if ups else None,
-                "counter %d becomes %r" % (k, after))
-        ctx.need(isinstance(tok, bytes), "next_token does not return bytes in the evaluated world (%r)" % (tok,))
-        V.check("the token fits the 8 bytes of a CoAP token", len(tok) <= 8, rets[0] if rets else None, "counter %d gives a token of %d bytes" % (k, len(tok)))
-        if isinstance(after, int):
-            other = seen.setdefault(tok, after)
-            V.check("the token is an injective rendering of the counter (8-byte big endian, leading zeros stripped)", other == after, rets[0] if rets else None,
-                    "the counter values %d and %d both give the token %r" % (other, after, tok))
+    for wdesc, args, kwargs, table in _token_source_worlds(ctx, prog, fi):
+        for k in _COUNTERS:
+            me = kit.Obj("self", True, cls=qn, attrs={"_token": k, "outgoing_requests": kit.VDict(table, name="outgoing_requests"),
+                                                      "incoming_requests": kit.VDict((), name="incoming_requests")})
+            it = kit.Interp(prog)
+            kind, tok = it.run_method(fi, me, list(args), dict(kwargs))
+            ctx.need(kind == "return" and not it.choices and not it.blind, "next_token: the evaluated world is not deterministic")
+            w = "%scounter %d" % (wdesc, k)
+            after = me.attrs.get("_token")
+            V.check("the counter advances by exactly one modulo 2**64 (2**64 distinct tokens before a repeat)", after == (k + 1) % 2 ** 64 and not isinstance(after, bool), ups[0] if ups else None,
+                    "%s becomes %r" % (w, after))
+            ctx.need(isinstance(tok, bytes), "next_token does not return bytes in the evaluated world (%r)" % (tok,))
+            V.check("the token fits the 8 bytes of a CoAP token", len(tok) <= 8, rets[0] if rets else None, "%s gives a token of %d bytes" % (w, len(tok)))
+            if isinstance(after, int):
+                other = seen.setdefault(tok, after)
+                V.check("the token is an injective rendering of the counter (8-byte big endian, leading zeros stripped)", other == after, rets[0] if rets else None,
+                        "the counter values %d and %d both give the token %r" % (other, after, tok))
+            # the necessary condition itself, on the same world: the table is exactly as it was (the first request was
+            # retired, or never registered), the source is asked again -- a token that was handed out is not handed out
+            # again, else a late or duplicated response to the retired request matches the next one
+            kind2, tok2 = it.run_method(fi, me, list(args), dict(kwargs))
+            ctx.need(kind2 == "return" and not it.choices and not it.blind and isinstance(tok2, bytes), "next_token: the evaluated world is not deterministic")
+            V.check("two successive draws never give the same token (a retired token is not handed out again)", tok2 != tok, rets[0] if rets else None,
+                    "%s: the first draw gives %r, the next draw (same request table: the first request is already retired) gives %r again" % (w, tok, tok2))
     V.emit()
     _check_registration(ctx, "d")
 
@@ -1369,6 +1430,303 @@ def n(ctx):
         ctx.ob("nothing in the pipe's own event reporting raises into the reporter, or the reporter fails every request of the remote regardless", tolerated, ofi, node, detail=detail)
 
 
+# -- the task that carries a request to its interface ---------------------------------------------------------------
+
+_SPAWNERS = ("create_task", "ensure_future")
+_TASK_QUERIES = ("add_done_callback", "remove_done_callback", "set_name", "get_name", "done", "cancelled", "get_coro")
+_COLLECT = ("add", "append", "appendleft", "insert")
+_DROP = ("discard", "remove")
+_SNAPSHOTS = ("list", "tuple", "set", "frozenset", "sorted", "reversed", "iter")
+
+
+def _parent_map(root):
+    pm = {}
+    for n in ast.walk(root):
+        for c in ast.iter_child_nodes(n):
+            pm[id(c)] = n
+    return pm
+
+
+def _enclosing(pm, node, kinds):
+    n = pm.get(id(node))
+    while n is not None and not isinstance(n, kinds):
+        n = pm.get(id(n))
+    return n
+
+
+def _catches_cancellation(prog, fi, handler):
+    if handler.type is None:
+        return True
+    tys = handler.type.elts if isinstance(handler.type, ast.Tuple) else [handler.type]
+    for t in tys:
+        name = chain(t)
+        if name is None:
+            raise AnalysisError("%s: except clause over `%s`" % (fi.short, stmt_text(t)))
+        qn = prog.resolve_in_module(fi.module, name)
+        if qn in ("BaseException", "CancelledError", "asyncio.CancelledError", "asyncio.exceptions.CancelledError", "concurrent.futures.CancelledError"):
+            return True
+    return False
+
+
+def _fails_request_when_cancelled(prog, fi, co):
+    """Every suspension point of the coroutine `co` lies in the body of a try statement with a handler that receives
+    the cancellation (bare / BaseException / CancelledError) and reports a failure to a pipe (add_exception)."""
+    pm = _parent_map(co)
+    points = [n for n in walk_no_nested(co) if isinstance(n, (ast.Await, ast.AsyncFor, ast.AsyncWith))]
+    for pt in points:
+        ok = False
+        for t in _try_bodies_around(co, pt):
+            if any(isinstance(c, ast.Call) and isinstance(c.func, ast.Attribute) and c.func.attr == "add_exception" for st in t.finalbody for c in ast.walk(st)):
+                raise AnalysisError("%s: the request is failed in a finally clause: outside the rule's vocabulary" % fi.short)
+            for h in t.handlers:
+                if _catches_cancellation(prog, fi, h) and any(isinstance(c, ast.Call) and isinstance(c.func, ast.Attribute) and c.func.attr == "add_exception" for st in h.body for c in ast.walk(st)):
+                    ok = True
+        if not ok:
+            return False, pt
+    return True, None
+
+
+def _field_cancel_sites(ctx, owner_cls, field, single):
+    """All places of the package where a task kept in the attribute `field` is cancelled.  Every mention of the
+    attribute (any receiver except `self` of an unrelated class) is classified: bookkeeping (initialisation with an
+    empty collection, add / discard / remove also as a method value, len, truth, membership, asyncio.wait -- which
+    never cancels what it waits for) is harmless; iteration (also over a snapshot, in a comprehension, or pop()) binds
+    an element whose uses are classified in turn (queries harmless, cancel() = a cancel site); whatever else happens
+    to the collection or to an element (passed on, awaited, gathered, wait_for) is outside the rule's vocabulary,
+    because awaiting / gathering a task hands the waiter's cancellation on to it."""
+    prog = ctx.prog
+    sites = []
+
+    def elem_uses(scope_nodes, name, where, pm):
+        for root in scope_nodes:
+            for n in ast.walk(root):
+                if isinstance(n, ast.Name) and n.id == name and isinstance(n.ctx, ast.Load):
+                    par = pm.get(id(n))
+                    if isinstance(par, ast.Attribute) and par.value is n:
+                        gp = pm.get(id(par))
+                        if isinstance(gp, ast.Call) and gp.func is par:
+                            if par.attr == "cancel":
+                                sites.append((where, gp))
+                                continue
+                            if par.attr in _TASK_QUERIES:
+                                continue
+                    raise AnalysisError("%s: a task kept in .%s is used as `%s`: outside the rule's vocabulary" % (where.short, field, stmt_text(pm.get(id(n)) or n)))
+
+    for m in prog.modules.values():
+        if not any(isinstance(n, ast.Attribute) and n.attr == field for n in ast.walk(m.tree)):
+            continue
+        pm = _parent_map(m.tree)
+        for n in ast.walk(m.tree):
+            if not (isinstance(n, ast.Attribute) and n.attr == field):
+                continue
+            fdef = _enclosing(pm, n, (ast.FunctionDef, ast.AsyncFunctionDef, ast.Lambda))
+            outer = fdef
+            while outer is not None and isinstance(outer, ast.Lambda):
+                outer = _enclosing(pm, outer, (ast.FunctionDef, ast.AsyncFunctionDef))
+            where = next((f for f in prog.funcs.values() if f.node is outer), None)
+            if where is None:
+                raise AnalysisError("attribute .%s is used outside a function in %s" % (field, m.name))
+            if chain(n.value) == "self" and where.cls is not None and not (prog.is_subclass(where.cls.qn, owner_cls) or prog.is_subclass(owner_cls, where.cls.qn)):
+                continue  # the same attribute name on an object of an unrelated class
+            par = pm.get(id(n))
+            # the collection itself, possibly behind a snapshot
+            coll = n
+            while isinstance(par, ast.Call) and coll in par.args and len(par.args) == 1 and not par.keywords and chain(par.func) in _SNAPSHOTS:
+                coll, par = par, pm.get(id(par))
+            if isinstance(par, ast.Call) and isinstance(par.func, ast.Attribute) and par.func.value is coll and par.func.attr == "copy" and not par.args:
+                coll, par = par, pm.get(id(par))
+            if isinstance(n.ctx, (ast.Store, ast.Del)):
+                continue  # (re)binding the attribute: what is stored is judged where the task is spawned
+            if isinstance(par, ast.Attribute) and par.value is coll:
+                gp = pm.get(id(par))
+                called = isinstance(gp, ast.Call) and gp.func is par
+                if par.attr in _COLLECT + _DROP + ("clear",) or (single and par.attr in _TASK_QUERIES):
+                    continue
+                if single and par.attr == "cancel" and called:
+                    sites.append((where, gp))
+                    continue
+                if par.attr in ("pop", "popleft", "popitem") and called:
+                    ggp = pm.get(id(gp))
+                    if isinstance(ggp, ast.Attribute) and ggp.attr == "cancel" and isinstance(pm.get(id(ggp)), ast.Call):
+                        sites.append((where, pm.get(id(ggp))))
+                        continue
+                    if isinstance(ggp, ast.Assign) and len(ggp.targets) == 1 and isinstance(ggp.targets[0], ast.Name):
+                        elem_uses([outer], ggp.targets[0].id, where, pm)
+                        continue
+                raise AnalysisError("%s: the tasks kept in .%s are used as `%s`: outside the rule's vocabulary" % (where.short, field, stmt_text(gp if called else par)))
+            if isinstance(par, (ast.For, ast.AsyncFor)) and par.iter is coll:
+                if not isinstance(par.target, ast.Name):
+                    raise AnalysisError("%s: iteration over .%s with a structured target" % (where.short, field))
+                elem_uses(par.body + par.orelse, par.target.id, where, pm)
+                continue
+            if isinstance(par, ast.comprehension) and par.iter is coll:
+                comp = pm.get(id(par))
+                if not isinstance(par.target, ast.Name):
+                    raise AnalysisError("%s: iteration over .%s with a structured target" % (where.short, field))
+                parts = [x for x in ast.iter_child_nodes(comp) if x is not par] + list(par.ifs)
+                elem_uses(parts, par.target.id, where, pm)
+                continue
+            if isinstance(par, ast.Call) and coll in par.args and chain(par.func) in ("len", "bool", "asyncio.wait"):
+                continue
+            if isinstance(par, (ast.If, ast.While, ast.IfExp)) and par.test is coll:
+                continue
+            if isinstance(par, ast.UnaryOp) and isinstance(par.op, ast.Not):
+                continue
+            if isinstance(par, ast.BoolOp):
+                continue
+            if isinstance(par, ast.Compare) and coll in par.comparators and all(isinstance(o, (ast.In, ast.NotIn)) for o in par.ops):
+                continue
+            if isinstance(par, ast.AnnAssign) and par.annotation is not n:
+                continue
+            if single and isinstance(par, ast.Compare) and all(isinstance(o, (ast.Is, ast.IsNot)) for o in par.ops):
+                continue
+            raise AnalysisError("%s: the tasks kept in .%s are used as `%s`: outside the rule's vocabulary" % (where.short, field, stmt_text(par)))
+    return sites
+
+
+def _loop_like(fi, recv):
+    """The receiver of a spawning call is the event loop / the asyncio module (not a TaskGroup or another owner that
+    cancels what it spawned)."""
+    if recv is None:
+        return False
+    r = resolve_local(fi.node, recv)
+    if chain(r) in ("self.loop", "asyncio", "loop", "self._loop"):
+        return True
+    return isinstance(r, ast.Call) and chain(r.func) in ("asyncio.get_running_loop", "asyncio.get_event_loop")
+
+
+def _carrier_functions(ctx):
+    """Context.request and the functions that are not part of the confirmed tree (helpers somebody split off) which
+    it reaches by `self.h(...)` / `h(...)` calls, transitively."""
+    prog = ctx.prog
+    start = prog.func("protocol.Context.request")
+    base = kit.baseline_functions()
+    out, todo = [], [start]
+    while todo:
+        fi = todo.pop()
+        if any(f is fi for f in out):
+            continue
+        out.append(fi)
+        for c in ast.walk(fi.node):
+            if not isinstance(c, ast.Call):
+                continue
+            callee = None
+            if isinstance(c.func, ast.Attribute) and chain(c.func.value) in ("self", "cls") and fi.cls is not None:
+                callee = prog.lookup_method(fi.cls.qn, c.func.attr)
+            elif isinstance(c.func, ast.Name):
+                callee = prog.funcs.get(prog.resolve_in_module(fi.module, c.func.id))
+            if callee is not None and callee.qn not in base and not isinstance(callee.node, ast.Lambda):
+                todo.append(callee)
+    return out
+
+
+def _carrier_tasks(ctx, fi, owner):
+    prog = ctx.prog
+    pm = _parent_map(fi.node)
+    spawns = [c for c in walk_no_nested(fi.node) if isinstance(c, ast.Call) and (chain(c.func) or "").split(".")[-1] in _SPAWNERS]
+    found = 0
+    for sp in spawns:
+        coro = sp.args[0] if sp.args else next((k.value for k in sp.keywords if k.arg in ("coro", "coro_or_future")), None)
+        ctx.need(coro is not None, "%s: task without a coroutine argument" % fi.short)
+        coro = resolve_local(fi.node, coro)
+        ctx.need(isinstance(coro, ast.Call), "%s: the coroutine of the task is not a call (`%s`)" % (fi.short, stmt_text(coro)))
+        co = None
+        if isinstance(coro.func, ast.Name):
+            co = next((n for n in ast.walk(fi.node) if isinstance(n, ast.AsyncFunctionDef) and n.name == coro.func.id), None)
+            if co is None:
+                mfi = prog.funcs.get(prog.resolve_in_module(fi.module, coro.func.id))
+                co = mfi.node if mfi is not None and isinstance(mfi.node, ast.AsyncFunctionDef) else None
+        elif isinstance(coro.func, ast.Attribute) and chain(coro.func.value) == "self" and fi.cls is not None:
+            mfi = prog.lookup_method(fi.cls.qn, coro.func.attr)
+            co = mfi.node if mfi is not None and isinstance(mfi.node, ast.AsyncFunctionDef) else None
+        ctx.need(co is not None, "%s: cannot resolve the coroutine function of `%s`" % (fi.short, stmt_text(coro)))
+        if not any(isinstance(c, ast.Call) and isinstance(c.func, ast.Attribute) and c.func.attr in ("add_exception", "request") for c in ast.walk(co)):
+            continue  # not the task that carries the request
+        found += 1
+        ctx.need(_loop_like(fi, sp.func.value if isinstance(sp.func, ast.Attribute) else None),
+                 "%s: the task that carries the request is spawned by `%s`: an owner that may cancel it is outside the rule's vocabulary" % (fi.short, stmt_text(sp.func)))
+        # who holds the task
+        holders = []  # (field, single)
+        local_cancels = []
+
+        def self_field(e):
+            ch = chain(e) or ""
+            return ch.startswith("self.") and ch.count(".") == 1
+        par = pm.get(id(sp))
+        if isinstance(par, ast.Expr):
+            pass
+        elif isinstance(par, ast.Assign) and len(par.targets) == 1 and isinstance(par.targets[0], ast.Name):
+            name = par.targets[0].id
+            ctx.need(len(writes_to_name(fi.node, name)) == 1, "%s: the task's local `%s` is assigned more than once" % (fi.short, name))
+            for n in ast.walk(fi.node):
+                if not (isinstance(n, ast.Name) and n.id == name and isinstance(n.ctx, ast.Load)):
+                    continue
+                up = pm.get(id(n))
+                if isinstance(up, ast.Attribute) and up.value is n and isinstance(pm.get(id(up)), ast.Call) and pm.get(id(up)).func is up:
+                    if up.attr in _TASK_QUERIES:
+                        continue
+                    if up.attr == "cancel":
+                        local_cancels.append(pm.get(id(up)))
+                        continue
+                if isinstance(up, ast.Call) and n in up.args and isinstance(up.func, ast.Attribute) and up.func.attr in _COLLECT and self_field(up.func.value):
+                    holders.append((up.func.value.attr, False))
+                    continue
+                if isinstance(up, ast.Assign) and up.value is n and len(up.targets) == 1 and self_field(up.targets[0]):
+                    holders.append((up.targets[0].attr, True))
+                    continue
+                raise AnalysisError("%s: the task that carries the request is used as `%s`: outside the rule's vocabulary" % (fi.short, stmt_text(up)))
+        elif isinstance(par, ast.Assign) and len(par.targets) == 1 and self_field(par.targets[0]):
+            holders.append((par.targets[0].attr, True))
+        elif isinstance(par, ast.Call) and sp in par.args and isinstance(par.func, ast.Attribute) and par.func.attr in _COLLECT and self_field(par.func.value):
+            holders.append((par.func.value.attr, False))
+        else:
+            raise AnalysisError("%s: the task that carries the request is used as `%s`: outside the rule's vocabulary" % (fi.short, stmt_text(par)))
+        sites = [(fi, c) for c in local_cancels]
+        for field, single in holders:
+            sites.extend(_field_cancel_sites(ctx, owner, field, single))
+        held = ", ".join("self." + f for f, _s in holders)
+        ctx.note("task carrying the request (%s): held by %s; cancel sites: %s" % (fi.short, held or "the loop only", ", ".join(w.short for w, _c in sites) or "none"))
+        desc = "nobody in the library cancels the task that carries a request to its interface"
+        if not sites:
+            ctx.ob(desc, True, fi, sp, detail="the task is %s; no cancel() reaches it" % ("kept in " + held if holders else "held by the loop only"))
+            continue
+        handled, pt = _fails_request_when_cancelled(prog, fi, co)
+        if handled:
+            # a handler inside the coroutine does not see a cancellation that arrives before the coroutine's first
+            # step (the CancelledError is thrown in at the `def`, outside every try): whether something else covers
+            # that window is not decided here
+            raise AnalysisError("%s: the task that carries the request is cancelled by %s and its coroutine handles the cancellation: a cancellation before the first step is outside the rule's vocabulary" % (
+                fi.short, ", ".join(sorted({w.short for w, _c in sites}))))
+        for where, c in sites:
+            ctx.ob(desc, False, where, c,
+                   detail="the task spawned by %s is kept in %s and cancelled here; CancelledError is a BaseException: at `%s` no handler of %s receives it and fails the pipe, the response future of the request stays pending for ever" % (
+                       fi.short, held or "a local", stmt_text(pt) if pt is not None else co.name, co.name))
+    return found
+
+
+@R.clause("C02.o", "the task that brings a request to its request interface ends only by handing the request over or failing it: nobody in the library can cancel it")
+def o(ctx):
+    """Context.request() spawns a task whose coroutine finds the interface and hands the pipe over; whatever else ends
+    that coroutine must fail the pipe, or the response future stays pending for good.  Exceptions are a matter of
+    the coroutine's handlers; *cancellation* (CancelledError, a BaseException its `except Exception` does not see) can
+    only be thrown in by somebody who holds the task.  Invariant over ALL holders: the task is spawned on the loop
+    (not by an owner that cancels its children), nothing in the package enumerates the loop's tasks, and the value
+    of the spawning call is dropped (only the loop holds it), or used for harmless queries (a done-callback runs when
+    the task is over), or kept in an attribute of the context -- then every use of that attribute in the package is
+    classified, and a cancel() of a kept task whose coroutine has a suspension point that no cancellation-receiving,
+    pipe-failing handler covers is reported.  Anything the classification does not understand is refused."""
+    prog = ctx.prog
+    start = prog.func("protocol.Context.request")
+    for m in prog.modules.values():
+        for n in ast.walk(m.tree):
+            if isinstance(n, ast.Attribute) and n.attr == "all_tasks":
+                raise AnalysisError("%s enumerates the loop's tasks (all_tasks): who may cancel the task that carries a request is outside the rule's vocabulary" % m.name)
+    found = 0
+    for fi in _carrier_functions(ctx):
+        found += _carrier_tasks(ctx, fi, start.cls.qn)
+    ctx.floor("tasks that carry a request from Context.request to its interface", found, 1)
+
+
 F_TM = "aiocoap/tokenmanager.py"
 R.seed("C02.j", "aiocoap/messagemanager.py", "        self.log.debug(\"Incoming error %s from %r\", error, remote)\n", "        self.log.debug(\"Incoming error %s from %r\", error, remote)\n        if remote not in self._backlogs:\n            return\n", "errors for remotes without an open exchange are dropped: NON requests and observations never fail")
 R.seed("C02.i", "aiocoap/messagemanager.py", "            del self._backlogs[message.remote]\n            self.token_manager.dispatch_error(", "            self.token_manager.dispatch_error(", "stale backlog entry after a timeout: the next request to that remote never completes with a library error")
@@ -1434,3 +1792,13 @@ R.seed("C02.n", F_PIPE, "                    exc_info=event.exception,\n", "    
 R.seed("C02.n", F_PIPE, "                    exc_info=event.exception,\n", "                    exc_info=event.exception,\n                    pipe=self,\n", "another keyword logging does not take")
 R.seed("C02.n", F_PIPE, "            return\n\n        for cb, is_interest in self._event_callbacks[:]:\n", "            raise RuntimeError(\"event on a pipe that has ended\")\n\n        for cb, is_interest in self._event_callbacks[:]:\n",
        "the ended arm raises instead of discarding")
+F_PROTO = "aiocoap/protocol.py"
+_SPAWN_OLD = "        self.loop.create_task(\n            send(),\n            name=\"Request processing of %r\" % result,\n        )\n        return result\n"
+R.seed("C02.o", F_PROTO, _SPAWN_OLD, "        self._sending.append(self.loop.create_task(send(), name=\"Request processing of %r\" % result))\n        return result\n\n    def abort_unsent(self):\n        for t in self._sending:\n            t.cancel()\n",
+       "the tasks that carry requests are collected and cancelled: a request still looking for its interface never completes")
+R.seed("C02.o", F_PROTO, _SPAWN_OLD, "        self._last_send = self.loop.create_task(send(), name=\"Request processing of %r\" % result)\n        return result\n\n    def abort_unsent(self):\n        self._last_send.cancel()\n",
+       "the carrying task is kept in an attribute and cancelled from another method")
+R.seed("C02.o", F_PROTO, _SPAWN_OLD, "        task = self.loop.create_task(send(), name=\"Request processing of %r\" % result)\n        self.loop.call_later(10, lambda: task.cancel())\n        return result\n",
+       "the carrying task is cancelled by a timer: CancelledError passes `except Exception`, the pipe is never failed")
+R.seed("C02.d", F_TM, "        # TODO: add proper Token handling\n", "        if not self.outgoing_requests:\n            return b\"\"\n",
+       "empty token while nothing is outstanding: sequential requests reuse it, a late response to a retired request matches the next one")
